@@ -9,6 +9,8 @@ MUT = ("push", "extend", "collect")
 
 
 ALLK = "{0, 1, 2, 3, 4, 5}"
+PAIRK = "{6, 7}"            # ranges given as pairs of bounds: (Excluded(a), Included(b)), (Excluded(a), Excluded(b))
+ALLK8 = "{0, 1, 2, 3, 4, 5, 6, 7}"
 
 
 def histories(ctx, max_ops, max_len, tag, simulate=None, kinds="{0}"):
@@ -37,14 +39,17 @@ def run(ctx):
     if ctx.quick:
         exh = histories(ctx, 3, 4, "soa_exh")
         exk = histories(ctx, 2, 4, "soa_kinds", kinds=ALLK)        # every range form (a..=b, ..b, ..=b, a.., ..) to depth 2
-        sim = histories(ctx, 14, 6, "soa_sim", simulate=(700, 16), kinds=ALLK)
-        plan = [("soa_exh", exh, "hsva,rgb"), ("soa_kinds", exk, "hsva,rgb,oklch"), ("soa_sim", sim, "hsva,rgb,laba,oklch,luma,jmha")]
+        exb = histories(ctx, 2, 4, "soa_pairs", kinds=PAIRK)
+        sim = histories(ctx, 14, 6, "soa_sim", simulate=(700, 16), kinds=ALLK8)
+        plan = [("soa_exh", exh, "hsva,rgb"), ("soa_kinds", exk, "hsva,rgb,oklch"), ("soa_pairs", exb, "hsva,rgb"),
+                ("soa_sim", sim, "hsva,rgb,laba,oklch,luma,jmha")]
     else:
         exh = histories(ctx, 3, 4, "soa_exh")
         exk = histories(ctx, 3, 4, "soa_kinds", kinds=ALLK)
         exh4 = histories(ctx, 4, 3, "soa_exh4")
-        sim = histories(ctx, 30, 8, "soa_sim", simulate=(3000, 32), kinds=ALLK)     # 8000 x 32 with all range forms exhausts the heap
-        plan = [("soa_exh", exh, "hsva,rgb,laba,oklch,luma,jmha"), ("soa_kinds", exk, "hsva,rgb"), ("soa_exh4", exh4, "hsva"),
+        exb = histories(ctx, 3, 4, "soa_pairs", kinds=PAIRK)
+        sim = histories(ctx, 30, 8, "soa_sim", simulate=(3000, 32), kinds=ALLK8)     # 8000 x 32 with all range forms exhausts the heap
+        plan = [("soa_exh", exh, "hsva,rgb,laba,oklch,luma,jmha"), ("soa_kinds", exk, "hsva,rgb"), ("soa_pairs", exb, "hsva,laba"), ("soa_exh4", exh4, "hsva"),
                 ("soa_sim", sim, "hsva,rgb,laba,oklch,luma,jmha")]
     total_h, nontrivial = 0, set()
     for tag, hs, types in plan:
@@ -64,7 +69,7 @@ def run(ctx):
             ty = next((e.get("ty") for e in reversed(scen) if e.get("ev") == "reset"), "?")
             coords = {"kind": "soa", "op": ev.get("op"), "ty": ty}
             what = "collection %s: call %s(%s,%s,%s,%s) replied %s / contents %s but the reference vector says %s" % (
-                ty, ev.get("op") + ("" if not ev.get("k") else "[range form %s]" % ["a..b", "a..=b", "..b", "..=b", "a..", ".."][ev["k"]]), ev.get("a"), ev.get("b"), ev.get("c"), ev.get("d"), ev.get("ret"), ev.get("comps"), info)
+                ty, ev.get("op") + ("" if not ev.get("k") else "[range form %s]" % ["a..b", "a..=b", "..b", "..=b", "a..", "..", "(Excluded(a), Included(b))", "(Excluded(a), Excluded(b))"][ev["k"]]), ev.get("a"), ev.get("b"), ev.get("c"), ev.get("d"), ev.get("ret"), ev.get("comps"), info)
             report(ctx, coords, what, {"bin": "soa", "type": ty, "scenario": scen, "rejected_event": ev,
                                        "trace_line": line, "how": "./check C18 --replay <this file>"})
     ctx.cov["distinct_nontrivial"] = len(nontrivial)
